@@ -263,6 +263,12 @@ def check(ctx):
                "must not depend on which object it is (`self is gate`), or an equal gate built afresh (H.dagger()) is not found in the table", mod=c.mod, node=rf, sig="repr-identity", trivial=True)
     ctx.depend("R16.4", "C03", "gates are looked up in the translation table by == and hash: a fresh but equal gate must be found", rules={"R03.1", "R03.2"},
                constructs=["discopy.quantum.gates.QuantumGate", "discopy.quantum.circuit.Box", "discopy.rigid.Box", "discopy.cat.Box", "discopy.monoidal.Box"], mod="discopy.quantum.gates")
+    try:
+        ctx.depend("R16.2", "C04", "circuit2zx is a functor over the FUNCTION gate2zx: each gate must be handed to it as it is, every time (a memo keyed by a printed form would merge rotations whose phases print alike)",
+                   rules={"R04.7"}, mod="discopy.cat")
+    except AnalysisError:
+        if not any(not o.ok for o in ctx.obs):
+            raise
     ctx.floor("R16.1", 14)
     ctx.floor("R16.3", 5)
     ctx.not_decided += ["composite circuits (follow from C04 functoriality and C09)", "the single overall scalar is not tracked"]
